@@ -47,6 +47,7 @@ fn dispatch(cmd: &str, rest: &[String]) -> i32 {
         "ch-replay" => choices::replay(rest),
         "ch-law" => choices::law(rest),
         "ch-trace" => choices::trace(rest),
+        "ch-sizes" => choices::sizes(rest),
         "cmp-replay" => compose::replay(rest),
         "cmp-trace" => compose::trace(rest),
         "law-var" => laws::run(rest),
